@@ -352,9 +352,11 @@ def value_text(case, option, idx, source_tag):
     if option == 'log-level':
         return ['debug', 'info', 'warning', 'error', 'critical', 'fatal'][idx % 6]
     if option == 'backend:port':
-        return [str(1000 + idx), TEXT_VALUES[idx % len(TEXT_VALUES)]][idx % 2]
+        return [str(1000 + idx), 'none', TEXT_VALUES[idx % len(TEXT_VALUES)]][idx % 3]
     if option == 'backend:legacy':
-        return ['true', 'false', 'True', 'none', TEXT_VALUES[idx % len(TEXT_VALUES)]][idx % 5]
+        return ['true', 'false', 'none', 'None', TEXT_VALUES[idx % len(TEXT_VALUES)]][idx % 5]
+    if option == 'backend:scheme':
+        return ['http', 'none', 'https', TEXT_VALUES[idx % len(TEXT_VALUES)]][idx % 4]
     return TEXT_VALUES[idx % len(TEXT_VALUES)]
 
 
@@ -428,6 +430,15 @@ def _run(case, work):
                                     f'{key[0]}{" (native TOML value)" if key[1] else ""} gives {diff[1]}', option=option, text=text,
                                     sources=[ref_key[0], key[0]], native=key[1] or ref_key[1],
                                     statuses=[ref['status'], res['status']]), classes, True)
+        # the coercion the README documents for backend options is guess_type: whichever source supplied the text, the
+        # backend must be constructed with exactly that value (an explicit `none` is a value, not "unset")
+        if option.startswith('backend:') and ref['status'] == 'ok' and ref['obs'] and '!error' not in ref['obs'].get('backend_kwargs', {}):
+            from replicat.utils import guess_type
+            want = _describe(guess_type(text))
+            got = ref['obs']['backend_kwargs'].get(option[8:])
+            if got is not None and got != want:
+                return Outcome(fail('coercion', f'option {option} = {text!r} reaches the backend constructor as {got}, expected {want}',
+                                    option=option, text=text), classes, True)
         info = {'kind': kind, 'option': option, 'text': text, 'sources': [k[0] for k in results], 'status': ref['status']}
         return Outcome(None, classes, len(results) >= 2, info)
 
@@ -456,6 +467,14 @@ def _run(case, work):
         return Outcome(fail('precedence', f'option {option}: with sources {used} (values {[texts[s] for s in used]}) the result is '
                             f'{diff[1]}, but with only the highest-priority source {top!r} it is {diff[0]}', option=option, sources=used,
                             statuses=[a['status'], b['status']], native=case['native']), classes, nontrivial)
+    if option.startswith('backend:') and a['status'] == 'ok' and a['obs'] and '!error' not in a['obs'].get('backend_kwargs', {}) \
+            and not (case['native'] and top in ('profile', 'default')):
+        from replicat.utils import guess_type
+        want = _describe(guess_type(texts[top]))
+        got = a['obs']['backend_kwargs'].get(option[8:])
+        if got is not None and got != want:
+            return Outcome(fail('coercion', f'option {option} = {texts[top]!r} (from {top}) reaches the backend constructor as {got}, '
+                                f'expected {want}', option=option, text=texts[top]), classes, nontrivial)
     info = {'kind': kind, 'option': option, 'sources': used, 'values': [texts[s] for s in used], 'status': a['status'],
             'argv': argv_full[:14]}
     return Outcome(None, classes, nontrivial, info)
